@@ -5,7 +5,7 @@ from which version to which; per-graph targets exactly as the code computes them
 Correspondence: opset imports of the model and of every function (exact), the set of conversion decisions (recorded by wrapping
 spox._adapt.adapt_node / onnx.version_converter.convert_version from the harness) vs Adapt.decisions, and the whole rendering
 when nothing is converted.  Direct oracle: imports recomputed independently from the reachable object graph; full checker +
-onnxruntime load; onnxruntime result vs a single-version reference build of the same recipe."""
+onnxruntime load; onnxruntime result of the mixed-version model vs direct numpy evaluation of the dataflow (inlined models: onnxruntime on the model itself)."""
 
 from __future__ import annotations
 
@@ -60,7 +60,7 @@ class GenM(B.GenX):
         super().__init__(rng, features=("inline", "func"), **kw)
         self.op = ModProxy(modrng, mixed)
         self.modrng, self.mixed = modrng, mixed
-        self.old_models = [m for tag, m, ok in c08.corner_models() if tag in ("opset13-relu", "opset11-squeeze")]
+        self.old_models = [m for tag, m, ok in c08.corner_models() if tag == "opset13-relu"]
 
     def _same2(self, v):
         t = v.type
@@ -183,7 +183,11 @@ def run(run: Run) -> int:
     for i in range(n):
         seed = run.rng.randrange(10 ** 9)
         try:
-            (ins, outs, g), (rins, routs, rg) = gen_pair(seed)
+            rng, modrng = random.Random(seed), random.Random(seed * 7919 + 1)
+            g = GenM(rng, modrng, True, leak_p=0.0, max_depth=2)
+            with warnings.catch_warnings():
+                warnings.simplefilter("ignore")
+                ins, outs = g.program()
         except Exception as e:  # generation itself failed (e.g. an operator missing in a module): skip, counted
             hist["genfail:" + type(e).__name__] += 1
             continue
@@ -192,12 +196,12 @@ def run(run: Run) -> int:
             B.run_impl(c)
         c.meta["converted"] = rec.calls
         cases.append(c)
-        refs.append((rins, routs))
+        refs.append(None)
         hist.update({f"module v{k}": v for k, v in g.op.used.items()})
         hist["outcome " + (c.impl.split(" ")[1] if c.impl.startswith("ERR") else "model")] += 1
     # --- direct oracles
     n_sem = 0
-    for c, (rins, routs) in zip(cases, refs):
+    for c, _ in zip(cases, refs):
         if c.model_proto is None and isinstance(c.exc, ValueError) and "does not specify the shape" in str(c.exc):
             hist["skipped: requested output of unknown rank"] += 1   # outside the property's precondition
             continue
@@ -220,25 +224,14 @@ def run(run: Run) -> int:
         if probs:
             run.fail("impl", "C09/node-invalid-at-import", probs[0][:200], {"problems": probs, "case": B.describe(c)})
             continue
-        # meaning: the same recipe built from one module only
-        r_impl, rm, rexc = B.outcome(lambda: B.build(rins, routs))
-        if rm is None:
-            continue
-        feeds = {}
-        for k, v in c.ins.items():
-            feeds[k] = np.array(bool(nprng.rand() > 0.5)) if v.type.dtype == np.dtype(bool) else (nprng.standard_normal(2) * 3).astype(F32)
-        try:
-            a = B.ort_run(m, {k: v for k, v in feeds.items() if k in {i.name for i in m.graph.input}})
-            b = B.ort_run(rm, {k: v for k, v in feeds.items() if k in {i.name for i in rm.graph.input}})
-        except Exception as e:  # noqa: BLE001
-            run.fail("impl", "C09/ort-run-fails", "onnxruntime cannot run the mixed-version model: " + str(e)[:160], {"case": B.describe(c)})
-            continue
+        # meaning: onnxruntime on the mixed-version model vs direct evaluation of the dataflow (each operator's own semantics)
+        from harness import c01
+        prob = c01.semantic_oracle(c, nprng)
         n_sem += 1
-        for name, x, y in zip(c.outs.keys(), a, b):
-            if x.shape != y.shape or not np.allclose(x, y, rtol=1e-5, atol=1e-6, equal_nan=True):
-                run.fail("impl", "C09/meaning-changed", f"output {name}: mixed-version model gives {x.tolist()}, single-version reference {y.tolist()}",
-                         {"feeds": {k: v.tolist() for k, v in feeds.items()}, "case": B.describe(c)})
-                break
+        if prob and "Subgraph must have the shape set" in prob:
+            hist["skipped: onnxruntime needs shapes on Scan body outputs"] += 1
+        elif prob:
+            run.fail("impl", "C09/meaning-changed" if "!=" in prob else "C09/ort-run-fails", prob[:300], {"problem": prob, "case": B.describe(c)})
     # --- correspondence
     live = [c for c in cases if c.coq is not None]
     header = B.COQ_HEADER.replace("Validate.", "Validate Adapt.")
@@ -251,7 +244,8 @@ def run(run: Run) -> int:
             f"match build_checked {c.coq[0]} {c.coq[1]} with "
             f"| inl m => (show_imports (mimports m) ++ concat \"\" (map (fun f => \" \" ++ f_name f ++ show_imports (f_imports f)) (mfunctions m)) ++ \" | \" ++ "
             f"join \",\" (map (fun ud => match ud with (NReal k, Convert s t) => \"n\" ++ decn k ++ \":\" ++ decn s ++ \">\" ++ decn t | (_, WarnForeign s t) => \"warn\" | _ => \"?\" end) "
-            f"(decisions (with_main {c.coq[0]} None []) differs m)) ++ \" | \" ++ show_model m) | inr e => show_err e end")
+            f"(decisions (with_main {c.coq[0]} None []) differs m)) ++ \" | \" ++ "
+            f"join \",\" (flat_map (fun u => match u with NReal k => [decn k] | _ => [] end) (all_srcs m)) ++ \" | \" ++ show_model m) | inr e => show_err e end")
     res = [parse_coq_string(x) for x in run.coq_eval("c09", header, exprs, shard=max(1, min(40, (len(exprs) + 15) // 16)))]
     mism = 0
     for c, r in zip(live, res):
@@ -261,13 +255,24 @@ def run(run: Run) -> int:
         m = c.model_proto
         imp = B.show_imports(m.opset_import) + "".join(" " + f.name + B.show_imports(f.opset_import) for f in m.functions)
         nodeidx = {id(opn): k for k, opn in enumerate(c.refl._keep_nodes) if opn is not None}
-        dec = ",".join(sorted(f"n{nodeidx.get(nid, '?')}:{s}>{t}" for nid, s, t in c.meta["converted"]))
-        parts = r.split(" | ", 2)
+        ident = lambda k: c.refl.nodes[k]["ident"] if isinstance(k, int) and k < len(c.refl.nodes) else "?"
+        # compared as sets of (operator, source > target): a function called twice has its body converted once per call in the
+        # implementation (the identical definitions are merged afterwards), once in the model
+        dec = ",".join(sorted({f"{ident(nodeidx.get(nid))}:{s}>{t}" for nid, s, t in c.meta["converted"]}))
+        parts = r.split(" | ", 3)
+        if not r.startswith("ERR"):
+            emitted = {int(x) for x in parts[2].split(",") if x}
+            # a function called twice is converted once per call by the implementation; only the kept definition is compared
+            dec = ",".join(sorted({f"{ident(nodeidx.get(nid))}:{s}>{t}" for nid, s, t in c.meta["converted"] if nodeidx.get(nid) in emitted}))
+            parts = [parts[0], parts[1], parts[3]]
         if r.startswith("ERR"):
             mism += 1
             run.fail("corr", "C09/model-vs-impl/outcome", "the model predicts an exception where the implementation returns a model", {"model": r, "case": B.describe(c)})
             continue
-        mdec = ",".join(sorted(x for x in parts[1].split(",") if x and x != "warn"))
+        def mname(x):
+            k, rest = x[1:].split(":", 1)
+            return f"{ident(int(k))}:{rest}"
+        mdec = ",".join(sorted({mname(x) for x in parts[1].split(",") if x and x != "warn" and x.startswith("n")}))
         # inline blocks: adapt_inline does not go through adapt_node; compare node conversions only
         mdec_nodes = ",".join(x for x in mdec.split(",") if x)
         if parts[0] != imp:
@@ -281,14 +286,13 @@ def run(run: Run) -> int:
             run.fail("corr", "C09/model-vs-impl/rendering", "no conversion needed but the emitted models differ", {"model": parts[2][:600], "case": B.describe(c)})
     cov = {
         "evaluations": len(cases), "distinct_nontrivial": len({c.impl for c in cases if c.model_proto is not None and c.meta["converted"]}),
-        "rule": "random recipes built twice: operators drawn from ai.onnx v17-v21 (and ai.onnx.ml v3-v5, inlined opset-13 models) vs all "
-                "from the newest module; non-trivial = at least one node was handed to the version converter",
-        "traces_validated_against_impl": len(live) - mism, "disagreements_checked": mism, "semantic_runs_mixed_vs_reference": n_sem,
+        "rule": "random programs whose operators are drawn from ai.onnx v17-v21, ai.onnx.ml v3-v5 and inlined opset-13 models; non-trivial = at least one node was handed to the version converter",
+        "traces_validated_against_impl": len(live) - mism, "disagreements_checked": mism, "semantic_runs_ort_vs_direct_evaluation": n_sem,
         "input_distribution": dict(hist),
         "samples": [{"converted": c.meta["converted"][:3], "impl": c.impl[:300]} for c in cases[:3]],
     }
     return run.finish(cov, [
-        "A: onnx.version_converter preserves operator meaning (oracle); judged by onnxruntime on mixed vs single-version builds",
+        "A: onnx.version_converter preserves operator meaning (oracle); judged by onnxruntime on the built model vs direct evaluation",
         "the schema-difference table is regenerated from spox._schemas.SCHEMAS on every run",
     ])
 
